@@ -105,8 +105,11 @@ class ProgDB(object):
         if name in self.modules:
             return self.modules[name]
         rel = name.replace('.', '/')
+        # verification harnesses (verif_harness.*: a few lines that CALL the real functions, like a proof harness in
+        # any deductive verifier) live next to the contracts, never in the repository
+        root = os.path.dirname(os.path.dirname(os.path.abspath(__file__))) if name.split('.')[0] == 'verif_harness' else self.root
         for cand in (rel + '.py', rel + '/__init__.py'):
-            p = os.path.join(self.root, cand)
+            p = os.path.join(root, cand)
             if os.path.exists(p):
                 m = ModuleInfo(name, p)
                 self.modules[name] = m
